@@ -17,6 +17,12 @@ CHECKS["C14"] = dict(level="exploration", engine="sweep",
    note="Trusts zmodel::tables / walker header parsers as a transcription of RFC 8878 (independently pinned to libzstd by the frames of C01). The reserved frame-descriptor bit is deliberately not compared (the crate ignores it; no property forbids that).",
    design="3/C14")
 
+CHECKS["C12"] = dict(level="exploration", engine="sweep",
+   technique="complete small-scope enumeration of distributions, description byte strings, histograms and symbol strings against zmodel's FSE; per-state frames pinned to libzstd",
+   text="Decoder: every normalised distribution for accuracy log 5 over <=5 symbols and logs 6..9 over <=3 symbols (plus shaped families incl. every zero-run length and all alphabet sizes) through build_from_probabilities and through build_decoder(serialised description), compared state by state with the specification table and with the bytes consumed; every byte string of length <=3 (followed by padding) as a description for all four (max log, alphabet) settings: accept/reject, table and length must equal the specification parser's. Predefined tables: crate decoder == crate encoder == zmodel, and zmodel is pinned to libzstd with one frame per state and per (state, next-bits) transition (~6.3k frames, also decoded by the crate). Encoder, production parameters only: every histogram over <=5 symbols at boundary code positions with counts in {0,1,2,3,5,8,13,100,5000}: no panic, probabilities sum to 2^log, 5<=log<=max, no seen symbol lost, description parses back (spec parser and crate decoder) consuming all bytes, and next_state/start_state checked against the decoding table for EVERY (symbol, state index). Every symbol string of length 4..=9/11 over alphabets 2,3,4 through the interleaved coder decodes to itself. Bit writer and both readers for every width sequence to depth 5/6.",
+   note="Trusts zmodel::fse (transcribed from RFC 8878 4.1; predefined tables observationally pinned to libzstd 1.5.7 except offset codes above 20/26, which need >64 MiB windows). Out-of-domain calls the compressor never makes (interleaved coder on <4 symbols, zero-bit forward reads) are excluded.",
+   design="3/C12")
+
 NOT_YET = {}
 
 def main():
